@@ -6,6 +6,7 @@
 use crate::mem::{get_executable_memory_slice, memory_read_byte, memory_write_byte, MemoryAreas};
 use crate::rt::{hash_words, Ctx, Rng};
 use crate::support;
+use crate::timing::ClockCycles;
 
 pub struct RefBus {
   pub rom: Vec<u8>,
@@ -21,6 +22,13 @@ pub struct RefBus {
   /// per-address constants of unmapped cells, learnt at first observation
   pub constants: Vec<Option<u8>>,
   pub iflag: u8,
+  /// device state that moves with time: learnt from the implementation after
+  /// every `elapse` (what it must be is C13/C14's subject), constant between
+  pub ly: u8,
+  pub stat_mode: u8,
+  pub div: u8,
+  /// a write to 0xFF46 happened and no time has passed since: OAM will change
+  pub dma_armed: bool,
 }
 
 /// I/O registers the emulator implements as readable: (offset, mask of defined bits)
@@ -44,8 +52,6 @@ pub const READABLE: [(u8, u8); 17] = [
   (0x4b, 0xff),
 ];
 
-const LY_NOW: u8 = 144; // power-on position: line 144, mode 1; no time passes in this monitor
-
 impl RefBus {
   pub fn io_mask(off: u8) -> Option<u8> {
     READABLE.iter().find(|r| r.0 == off).map(|r| r.1)
@@ -54,10 +60,10 @@ impl RefBus {
   fn io_read(&self, off: u8) -> u8 {
     match off {
       0x00 => (self.io[0] & 0x30) | 0x0f, // no button pressed: all input lines high
-      0x04 => 0,
+      0x04 => self.div,
       0x0f => self.iflag & 0x1f,
-      0x41 => (self.io[0x41] & 0x78) | if self.io[0x45] == LY_NOW { 4 } else { 0 } | 1,
-      0x44 => LY_NOW,
+      0x41 => (self.io[0x41] & 0x78) | if self.io[0x45] == self.ly { 4 } else { 0 } | self.stat_mode,
+      0x44 => self.ly,
       _ => self.io[off as usize],
     }
   }
@@ -67,17 +73,22 @@ impl RefBus {
       0x0f => self.iflag = v & 0x1f,
       0x41 => {
         self.io[0x41] = v;
-        if v & 0x40 != 0 && self.io[0x45] == LY_NOW {
+        if v & 0x40 != 0 && self.io[0x45] == self.ly {
           self.iflag |= 2;
         }
       }
       0x45 => {
         self.io[0x45] = v;
-        if self.io[0x41] & 0x40 != 0 && v == LY_NOW {
+        if self.io[0x41] & 0x40 != 0 && v == self.ly {
           self.iflag |= 2;
         }
       }
-      0x44 | 0x04 => {}
+      0x44 => {}
+      0x04 => self.div = 0,
+      0x46 => {
+        self.io[0x46] = v;
+        self.dma_armed = true;
+      }
       _ => self.io[off as usize] = v,
     }
   }
@@ -125,6 +136,7 @@ struct Mon<'a> {
   writes_by_region: [u64; 11],
   rom_bank_now: usize,
   ram_bank_now: usize,
+  elapses: u64,
 }
 
 impl<'a> Mon<'a> {
@@ -288,6 +300,35 @@ impl<'a> Mon<'a> {
     }
   }
 
+  fn learn_lcd_position(&mut self) {
+    let mp = self.mp();
+    self.r.ly = memory_read_byte(mp, 0xff44);
+    self.r.stat_mode = memory_read_byte(mp, 0xff41) & 3;
+    // LY moving onto or off LYC changes the coincidence bit, and may have requested STAT
+    self.r.iflag = memory_read_byte(mp, 0xff0f) & 0x1f;
+  }
+
+  /// Let `clocks` of emulated time pass. The registers that move with time are
+  /// learnt afterwards (DIV, TIMA, IF, LY, STAT mode; OAM when a DMA transfer
+  /// was started); everything else must read back exactly as before.
+  fn elapse(&mut self, clocks: usize, sweep_step: u32) {
+    let clocks = if self.r.dma_armed { clocks.max(4 * 200) } else { clocks };
+    self.elapses += 1;
+    self.mem.run_clock_cycles(ClockCycles(clocks));
+    let mp = self.mp();
+    self.r.div = memory_read_byte(mp, 0xff04);
+    self.r.io[0x05] = memory_read_byte(mp, 0xff05);
+    self.learn_lcd_position();
+    if self.r.dma_armed {
+      for i in 0..0xa0u16 {
+        self.r.oam[i as usize] = memory_read_byte(mp, 0xfe00 + i);
+      }
+      self.r.dma_armed = false;
+    }
+    let after = format!("elapse {} clocks", clocks);
+    self.sweep(&after, sweep_step);
+  }
+
   /// one write, mirrored into the reference, followed by the read-back
   fn write(&mut self, a: u16, v: u8, sweep_step: u32) {
     self.evaluations += 1;
@@ -311,6 +352,18 @@ impl<'a> Mon<'a> {
       Region::Hram => self.r.hram[a as usize & 0x7f] = v,
       Region::Ie => self.r.ie = v,
       Region::Io => self.r.io_write(a as u8, v),
+    }
+    if reg == Region::Io {
+      match a as u8 {
+        // a DIV or TAC write may count one more TIMA step (and overflow): C13's subject
+        0x04 | 0x07 => {
+          self.r.io[0x05] = memory_read_byte(mp, 0xff05);
+          self.r.iflag = memory_read_byte(mp, 0xff0f) & 0x1f;
+        }
+        // switching the LCD off or on may move the scan position: C14's subject
+        0x40 => self.learn_lcd_position(),
+        _ => {}
+      }
     }
     let after = format!("write {:04X}={:02X}", a, v);
     self.sweep(&after, sweep_step);
@@ -363,6 +416,10 @@ fn build(cart_type: u8, rom_code: u8, ram_code: u8, rng: &mut Rng) -> (Box<Memor
     },
     constants: vec![None; 0x10000],
     iflag: 0,
+    ly: memory_read_byte(core.memory.as_ptr(), 0xff44),
+    stat_mode: memory_read_byte(core.memory.as_ptr(), 0xff41) & 3,
+    div: memory_read_byte(core.memory.as_ptr(), 0xff04),
+    dma_armed: false,
   };
   // move the MemoryAreas out of the core: swap in a trivial one so the Core can be dropped
   let placeholder = MemoryAreas::with_rom(vec![0u8; 1].into_boxed_slice());
@@ -377,6 +434,7 @@ pub fn run(ctx: &mut Ctx) {
   let mut unit = 0u64;
   let mut totals = (0u64, 0u64, 0u64);
   let mut by_region = [0u64; 11];
+  let mut elapses = 0u64;
   for (ci, &(name, ct, rc, rac)) in configs.iter().enumerate() {
     // work units: chunks of the target-address space
     let chunks = 64u32;
@@ -389,7 +447,7 @@ pub fn run(ctx: &mut Ctx) {
       ctx.intent(&[u, ci as u64, chunk as u64]);
       let mut rng = Rng::from(&[seed, 10, ci as u64, chunk as u64]);
       let (mem, r) = build(ct, rc, rac, &mut rng);
-      let mut m = Mon { ctx, mem, r, cfg_name: name, evaluations: 0, bytes_compared: 0, fetch_compared: 0, writes_by_region: [0; 11], rom_bank_now: 1, ram_bank_now: 0 };
+      let mut m = Mon { ctx, mem, r, cfg_name: name, evaluations: 0, bytes_compared: 0, fetch_compared: 0, writes_by_region: [0; 11], rom_bank_now: 1, ram_bank_now: 0, elapses: 0 };
       // initial read-back (learns the constants of unmapped cells)
       m.sweep("power-on", 1);
       // a random history first: bank registers, I/O registers, RAM
@@ -401,6 +459,15 @@ pub fn run(ctx: &mut Ctx) {
           _ => rng.u16(),
         };
         m.write(a, rng.edgy_u8(), 97);
+        if rng.chance(1, 3) {
+          m.elapse(4 * (1 + rng.below(*rng.clone().pick(&[8u64, 300, 20_000])) as usize), 97);
+        }
+      }
+      // the timer runs for the rest of the history (a third of the units: fast, slow, off)
+      match chunk % 3 {
+        0 => m.write(0xff07, 0x05, 97),
+        1 => m.write(0xff07, 0x04, 97),
+        _ => {}
       }
       // every target address of this chunk (thorough) or a sample + all region boundaries and I/O registers
       let base = chunk * 1024;
@@ -429,10 +496,24 @@ pub fn run(ctx: &mut Ctx) {
         }
       }
       for &t in targets.iter() {
+        // time passes between some of the writes: device state (divider phase, scan
+        // position, a running DMA transfer) differs from write to write
+        if rng.chance(1, 4) {
+          m.elapse(4 * (1 + rng.below(*rng.clone().pick(&[2u64, 64, 1000, 18_000])) as usize), 3);
+        }
         let v1 = rng.edgy_u8();
         m.write(t, v1, if thorough { 1 } else { 1 });
         let v2 = !v1;
         m.write(t, v2, if thorough { 1 } else { 3 });
+      }
+      if base == 0xfc00 {
+        // device registers written at many different device phases
+        for _ in 0..96 {
+          // (whole machine cycles: every caller in the repository advances the devices in multiples of 4 clocks)
+          m.elapse(4 * (1 + rng.below(*rng.clone().pick(&[4u64, 170, 800])) as usize), 1);
+          let off = *rng.pick(&[0x07u8, 0x07, 0x06, 0x05, 0x04, 0x41, 0x45, 0x40, 0x0f, 0x00, 0x47, 0x42]);
+          m.write(0xff00 + off as u16, rng.u8(), 1);
+        }
       }
       m.ctx.distinct_key(hash_words(&[ci as u64, chunk as u64, 1]));
       for &t in targets.iter() {
@@ -441,6 +522,7 @@ pub fn run(ctx: &mut Ctx) {
       totals.0 += m.evaluations;
       totals.1 += m.bytes_compared;
       totals.2 += m.fetch_compared;
+      elapses += m.elapses;
       for i in 0..11 {
         by_region[i] += m.writes_by_region[i];
       }
@@ -457,6 +539,7 @@ pub fn run(ctx: &mut Ctx) {
   ctx.count("evaluations", totals.0);
   ctx.count("bytes-read-back-and-compared", totals.1);
   ctx.count("fetch-view-comparisons", totals.2);
+  ctx.count("elapses-followed-by-full-read-back", elapses);
   let names = ["rom0", "romN", "vram", "cartram", "wram", "echo", "oam", "unused", "io", "hram", "ie"];
   for i in 0..11 {
     ctx.count(&format!("writes-to:{}", names[i]), by_region[i]);
